@@ -10,6 +10,7 @@ a scenario keeps its meaning when the shrinker lowers nsamps.
 from __future__ import annotations
 
 import os
+import random
 import struct
 
 import numpy as np
@@ -107,7 +108,7 @@ def encode_header(fields: dict) -> bytes:
     """Minimal independent SIGPROC header encoder."""
     types = {
         "telescope_id": "i", "machine_id": "i", "data_type": "i", "nchans": "i", "nbits": "i",
-        "nifs": "i", "ibeam": "i", "nbeams": "i", "barycentric": "i", "pulsarcentric": "i",
+        "nifs": "i", "ibeam": "i", "nbeams": "i", "barycentric": "i", "pulsarcentric": "i", "signed": "b",
         "fch1": "d", "foff": "d", "tsamp": "d", "tstart": "d", "refdm": "d", "src_raj": "d",
         "src_dej": "d", "az_start": "d", "za_start": "d",
         "source_name": "s", "rawdatafile": "s",
@@ -125,7 +126,7 @@ def encode_header(fields: dict) -> bytes:
 
 def header_fields(spec: dict, ifile: int, tstart: float) -> dict:
     pad = (spec.get("pad") or [0] * len(spec["nsamps"]))[ifile]
-    return {
+    return _header_variant(spec, ifile, {
         "telescope_id": 4,
         "machine_id": 10,
         "data_type": spec.get("data_type", 1),
@@ -145,7 +146,28 @@ def header_fields(spec: dict, ifile: int, tstart: float) -> dict:
         "nchans": int(spec["nchans"]),
         "nifs": 1,
         "refdm": float(spec.get("refdm", 0.0)),
-    }
+    })
+
+
+def _header_variant(spec: dict, ifile: int, fields: dict) -> dict:
+    """Other writers' headers: the format fixes neither the order of the keys nor which optional keys are
+    present.  A third of the file sets (decided by the scenario's `hv`, default its `vseed`) carry optional
+    keys (ibeam, nbeams, signed=0) and/or list their keys in another order - a different one in each file
+    of a set."""
+    hv = int(spec.get("hv", spec.get("vseed", 0)))
+    if hv % 3 != 2:
+        return fields
+    r = random.Random(f"hv/{hv}")
+    if r.random() < 0.5:
+        fields["ibeam"] = r.choice([0, 1, 7])
+        fields["nbeams"] = r.choice([1, 13])
+    if r.random() < 0.3:
+        fields["signed"] = 0
+    if r.random() < 0.7:
+        keys = list(fields)
+        random.Random(f"hv/{hv}/{ifile}").shuffle(keys)
+        fields = {k: fields[k] for k in keys}
+    return fields
 
 
 def gen_pads(rng, n, small=9):
